@@ -130,7 +130,12 @@ def evaluate(spec):
         # (puts byte intervals back into listing order when the closing
         # re-layout scrambled them: finding C01-layout-reorders-intervals)
         Lm.Observed(built)
-        for kind, detail in Ob.validate_ir(built.ir, original_blocks=set(built.blocks.values()), self_loop_blocks=built.self_loops):
+        input_next = {}
+        for _name, idxs in case.sections:
+            for k, g in enumerate(idxs):
+                input_next[built.blocks[g]] = built.blocks[idxs[k + 1]] if k + 1 < len(idxs) else None
+        for kind, detail in Ob.validate_ir(built.ir, original_blocks=set(built.blocks.values()), self_loop_blocks=built.self_loops,
+                                           input_next=input_next):
             out.fail("C05.valid", kind, detail)
     # faults: every k
     out.extra_runs = []
